@@ -1,4 +1,6 @@
-import SaModel.Build.Finish
+import SaModel.Lemmas.C16Run
+import SaModel.Lemmas.C16FromType
+import SaModel.Props.C17
 import SaModel.Props.C14
 import SaModel.Props.C15
 import SaModel.Props.C20
@@ -8,150 +10,184 @@ C16 — failures are reported as errors: no panic, overflow or hang.
 In the model every Rust operation that can unwind (indexing, slicing, unwrap, `%0`, checked arithmetic in a
 debug build) yields the outcome `panic`; "no panic" is the theorem `(f x).isPanic = false` for ALL inputs of `f`.
 Termination: every model function is accepted by Lean as total (structural or well-founded recursion), so no
-modelled entry point can run unboundedly.  This file proves the builder-side statements that need no state
-invariant and collects the per-codec theorems proved with their properties; the statement for `push` on
-well-formed states is part of the refinement work (Props/C01).
+modelled entry point can run unboundedly (notes/C16.md lists which Rust loop is which recursion).
+
+Builder side (proofs in Lemmas/C16Basic, C16Inv, C16Push, C16New, C16Run):
+* placeholders and nulls never unwind in ANY builder state;
+* `push_no_panic`: for EVERY serde value (malformed raw key/value streams, tuples longer/shorter than the struct,
+  wrong lengths, wrong kinds) and every state satisfying the invariant `NPInv` (the vectors the Rust code indexes
+  unchecked have one entry per field / variant; decimal precisions are the accepted ones), `push` does not unwind;
+  `NPInv` is established by `build_builder` and preserved by every successful push of every value;
+* `newDT`, `finish`, `extend`, `serializeWith`, `runRows`, `toMarrow` never unwind, for every field list and all rows.
+The external conversions enter through `ExtNP ext` (they do not unwind); `codecExt_np` discharges it for the
+C14 / C15 codec models.  The per-codec theorems are collected at the end.
 -/
 namespace SaModel.Props.C16
 open SaModel SaModel.Build
 
-theorem ctx_isPanic {α} (ann : List (String × String)) (r : R α) : (ctx ann r).isPanic = r.isPanic := by
-  unfold ctx
-  split
-  · split <;> simp [R.isPanic]
-  · rfl
+open SaModel.Lemmas.C16 (NPInv NPInvL KindOK ExtNP SInv)
+
+theorem ctx_isPanic {α} (ann : List (String × String)) (r : R α) : (ctx ann r).isPanic = r.isPanic :=
+  Lemmas.C16.ctx_isPanic ann r
 
 theorem bind_no_panic {α β} (r : R α) (f : α → R β) (h1 : r.isPanic = false) (h2 : ∀ v, (f v).isPanic = false) :
-    (r >>= f).isPanic = false := by
-  cases r with
-  | ok v => exact h2 v
-  | error e => cases e <;> simp_all [R.isPanic, bind, Except.bind]
+    (r >>= f).isPanic = false := Lemmas.C16.bind_no_panic r f h1 h2
 
 theorem ok_no_panic {α} (v : α) : R.isPanic (Except.ok v : R α) = false := rfl
 theorem fail_no_panic {α} (msg : String) : (fail msg : R α).isPanic = false := rfl
 
-theorem setValidity_no_panic (v : Validity) (idx : Nat) (value : Bool) : (setValidity v idx value).isPanic = false := by
-  unfold setValidity; split <;> try rfl
-  split <;> rfl
+/-- `r.isPanic = false` is the statement `r ≠ panic site` for every site -/
+theorem isPanic_false_iff {α} (r : R α) : r.isPanic = false ↔ ∀ site, r ≠ panic site := by
+  constructor
+  · intro h site; exact Lemmas.C16.ne_panic_of_isPanic h site
+  · intro h
+    cases r with
+    | ok v => rfl
+    | error e =>
+      cases e with
+      | panic site => exact absurd rfl (h site)
+      | err _ => rfl
+      | errCtx _ _ => rfl
 
-theorem duplicateLast_no_panic (offs : List Int) : (duplicateLast offs).isPanic = false := by
-  unfold duplicateLast; split <;> rfl
+theorem setValidity_no_panic (v : Validity) (idx : Nat) (value : Bool) : (setValidity v idx value).isPanic = false :=
+  Lemmas.C16.setValidity_no_panic v idx value
+
+theorem duplicateLast_no_panic (offs : List Int) : (duplicateLast offs).isPanic = false :=
+  Lemmas.C16.duplicateLast_no_panic offs
 
 /-- the repaired `increment_last` never unwinds (the pinned one does at the top of the offset type) -/
 theorem incrementLast_no_panic (large : Bool) (offs : List Int) (inc : Nat) :
-    (incrementLast true large offs inc).isPanic = false := by
-  unfold incrementLast
-  split
-  · rfl
-  · split
-    · rfl
-    · split <;> rfl
+    (incrementLast true large offs inc).isPanic = false := Lemmas.C16.incrementLast_no_panic large offs inc
 
-theorem iter_no_panic {α} (f : α → R α) (hf : ∀ a, (f a).isPanic = false) : ∀ (k : Nat) (a : α), (iter k f a).isPanic = false
-  | 0, _ => rfl
-  | k + 1, a => by
-    rw [iter]
-    exact bind_no_panic _ _ (hf a) (fun a' => iter_no_panic f hf k a')
-
-mutual
 /-- placeholders (`serialize_default`, any number of them) never unwind, in ANY builder state -/
-theorem pushDefaultK_no_panic : ∀ (b : B) (k : Nat), (pushDefaultK b k).isPanic = false
-  | .null _ _, _ => by simp [pushDefaultK, R.isPanic]
-  | .unknownVariant _, k => by
-    unfold pushDefaultK
-    split
-    · rfl
-    · rw [ctx_isPanic]; rfl
-  | .leaf _ _ _ _, k => by
-    unfold pushDefaultK
-    exact bind_no_panic _ _ (iter_no_panic _ (fun _ => rfl) _ _) (fun _ => rfl)
-  | .bytes _ _ _ _ _, k => by
-    unfold pushDefaultK
-    rw [ctx_isPanic]
-    refine bind_no_panic _ _ (iter_no_panic _ (fun s => ?_) _ _) (fun _ => rfl)
-    exact bind_no_panic _ _ (duplicateLast_no_panic _) (fun _ => rfl)
-  | .bytesView _ _ _ _ _, k => by
-    unfold pushDefaultK
-    exact bind_no_panic _ _ (iter_no_panic _ (fun _ => rfl) _ _) (fun _ => rfl)
-  | .fixedSizeBinary _ _ _ _ _ _, k => by
-    unfold pushDefaultK
-    exact bind_no_panic _ _ (iter_no_panic _ (fun _ => rfl) _ _) (fun _ => rfl)
-  | .list _ _ _ _ _ _, k => by
-    unfold pushDefaultK
-    rw [ctx_isPanic]
-    refine bind_no_panic _ _ (iter_no_panic _ (fun s => ?_) _ _) (fun _ => rfl)
-    exact bind_no_panic _ _ (duplicateLast_no_panic _) (fun _ => rfl)
-  | .fixedSizeList _ _ n _ _ _ el, k => by
-    unfold pushDefaultK
-    rw [ctx_isPanic]
-    refine bind_no_panic _ _ (iter_no_panic _ (fun _ => rfl) _ _) (fun _ => ?_)
-    exact bind_no_panic _ _ (pushDefaultK_no_panic el (k * n)) (fun _ => rfl)
-  | .map _ _ _ _ _ _, k => by
-    unfold pushDefaultK
-    rw [ctx_isPanic]
-    refine bind_no_panic _ _ (iter_no_panic _ (fun s => ?_) _ _) (fun _ => rfl)
-    exact bind_no_panic _ _ (duplicateLast_no_panic _) (fun _ => rfl)
-  | .struct _ _ _ fs _ _ _, k => by
-    unfold pushDefaultK
-    rw [ctx_isPanic]
-    refine bind_no_panic _ _ (iter_no_panic _ (fun _ => rfl) _ _) (fun _ => ?_)
-    exact bind_no_panic _ _ (pushDefaultKAll_no_panic fs k) (fun _ => rfl)
-  | .dictionary _ idx _ _, k => by
-    unfold pushDefaultK
-    rw [ctx_isPanic]
-    exact bind_no_panic _ _ (pushDefaultK_no_panic idx k) (fun _ => rfl)
-  | .union _ fs _ _ _, k => by
-    unfold pushDefaultK
-    rw [ctx_isPanic]
-    cases fs with
-    | nil => simp only []; split <;> rfl
-    | cons c m rest => exact bind_no_panic _ _ (pushDefaultK_no_panic c k) (fun _ => rfl)
-theorem pushDefaultKAll_no_panic : ∀ (fs : BL) (k : Nat), (pushDefaultKAll fs k).isPanic = false
-  | .nil, _ => rfl
-  | .cons b _ rest, k => by
-    unfold pushDefaultKAll
-    refine bind_no_panic _ _ (pushDefaultK_no_panic b k) (fun _ => ?_)
-    exact bind_no_panic _ _ (pushDefaultKAll_no_panic rest k) (fun _ => rfl)
-end
+theorem pushDefaultK_no_panic (b : B) (k : Nat) : (pushDefaultK b k).isPanic = false :=
+  Lemmas.C16.pushDefaultK_no_panic b k
 
 /-- a null pushed into ANY builder state never unwinds (error if the field is not nullable) -/
-theorem pushNone_no_panic : ∀ (b : B), (pushNone b).isPanic = false
-  | .null _ _ => rfl
-  | .unknownVariant _ => by unfold pushNone; rw [ctx_isPanic]; rfl
-  | .leaf _ _ _ _ => by
-    unfold pushNone; rw [ctx_isPanic]
-    exact bind_no_panic _ _ (setValidity_no_panic _ _ _) (fun _ => rfl)
-  | .bytes _ _ _ _ _ => by
-    unfold pushNone; rw [ctx_isPanic]
-    refine bind_no_panic _ _ (setValidity_no_panic _ _ _) (fun _ => ?_)
-    exact bind_no_panic _ _ (duplicateLast_no_panic _) (fun _ => rfl)
-  | .bytesView _ _ _ _ _ => by
-    unfold pushNone; rw [ctx_isPanic]
-    exact bind_no_panic _ _ (setValidity_no_panic _ _ _) (fun _ => rfl)
-  | .fixedSizeBinary _ _ _ _ _ _ => by
-    unfold pushNone; rw [ctx_isPanic]
-    exact bind_no_panic _ _ (setValidity_no_panic _ _ _) (fun _ => rfl)
-  | .list _ _ _ _ _ _ => by
-    unfold pushNone; rw [ctx_isPanic]
-    refine bind_no_panic _ _ (setValidity_no_panic _ _ _) (fun _ => ?_)
-    exact bind_no_panic _ _ (duplicateLast_no_panic _) (fun _ => rfl)
-  | .fixedSizeList _ _ n _ _ _ el => by
-    unfold pushNone; rw [ctx_isPanic]
-    refine bind_no_panic _ _ (setValidity_no_panic _ _ _) (fun _ => ?_)
-    exact bind_no_panic _ _ (pushDefaultK_no_panic el n) (fun _ => rfl)
-  | .map _ _ _ _ _ _ => by
-    unfold pushNone; rw [ctx_isPanic]
-    refine bind_no_panic _ _ (setValidity_no_panic _ _ _) (fun _ => ?_)
-    exact bind_no_panic _ _ (duplicateLast_no_panic _) (fun _ => rfl)
-  | .struct _ _ _ fs _ _ _ => by
-    unfold pushNone; rw [ctx_isPanic]
-    refine bind_no_panic _ _ (setValidity_no_panic _ _ _) (fun _ => ?_)
-    exact bind_no_panic _ _ (pushDefaultKAll_no_panic fs 1) (fun _ => rfl)
-  | .dictionary _ idx _ _ => by
-    unfold pushNone; rw [ctx_isPanic]
-    refine bind_no_panic _ _ ?_ (fun _ => rfl)
-    rw [ctx_isPanic]; exact pushNone_no_panic idx
-  | .union _ _ _ _ _ => by unfold pushNone; rw [ctx_isPanic]; rfl
+theorem pushNone_no_panic (b : B) : (pushNone b).isPanic = false := Lemmas.C16.pushNone_no_panic b
+
+/-! ### `push`: every serde value, every state the crate can be in -/
+
+/-- `build_builder` never unwinds (unsupported types are errors) and establishes the invariant -/
+theorem newDT_no_panic (path : String) (dt : DataType) (nullable : Bool) (md : Metadata) (site : String) :
+    newDT path dt nullable md ≠ panic site :=
+  Lemmas.C16.ne_panic_of_isPanic (Lemmas.C16.newDT_np path dt nullable md) site
+
+theorem newDT_inv {path : String} {dt : DataType} {nullable : Bool} {md : Metadata} {b : B}
+    (h : newDT path dt nullable md = .ok b) : NPInv b := Lemmas.C16.newDT_npInv h
+
+theorem newRoot_inv {fields : List Field} {root : B} (h : newRoot fields = .ok root) : NPInv root :=
+  Lemmas.C16.newRoot_npInv h
+
+/-- every successful push of EVERY value (no hypothesis on the value) keeps the invariant -/
+theorem push_preserves_inv (ext : Ext) (x : SVal) {b b' : B} (hb : NPInv b) (h : push ext b x = .ok b') : NPInv b' :=
+  Lemmas.C16.push_npInv ext x hb h
+
+/-- C16 for the builders: `x.serialize(builder)` returns a value or an error for EVERY serde value `x` — including
+raw key/value streams in any order, tuples longer or shorter than the struct, sequences of the wrong length,
+variants that do not exist, scalars of the wrong kind — in every state satisfying the invariant. -/
+theorem push_no_panic (ext : Ext) (he : ExtNP ext) (b : B) (hb : NPInv b) (x : SVal) (site : String) :
+    push ext b x ≠ panic site :=
+  Lemmas.C16.ne_panic_of_isPanic (Lemmas.C16.push_np ext he x b hb) site
+
+/-- the invariant is needed: with one `current_offset` counter missing the union builder indexes out of range -/
+theorem push_without_inv_panics :
+    (push {} (.union "$" (.cons (.null "$.a" 0) ⟨"a", true, []⟩ .nil) [] [] []) (.unitVariant "E" 0 "a")).isPanic = true := by
+  decide
+
+/-- the default external functions (everything is refused) satisfy `ExtNP` -/
+theorem extDefault_np : ExtNP {} :=
+  ⟨fun _ _ => rfl, fun _ _ => rfl, fun _ _ _ => rfl, fun _ _ => rfl, fun _ _ _ _ _ => rfl, fun _ _ _ _ => rfl⟩
+
+def codecUnit : SaModel.TimeUnit → SaModel.Codec.TimeUnit
+  | .second => .second | .millisecond => .millisecond | .microsecond => .microsecond | .nanosecond => .nanosecond
+
+/-- the external functions as the correspondence driver instantiates them (Driver/Suites/Build.lean `extOfAux`):
+decimal and temporal string conversions are the codec models of C15 / C14; the float display strings, the float
+product of the decimal float path (`cast`) and the timestamp parser are parameters -/
+def codecExt (f32Str f64Str : Nat → String) (cast : Nat → Int → Bool → Nat → Option (Bool × Int))
+    (parseTimestamp : SaModel.TimeUnit → Bool → String → R Int) : Ext :=
+  { f32Str := f32Str, f64Str := f64Str,
+    parseDecimal := fun p s txt => SaModel.Decimal.serializeStr p s txt.toUTF8.toList,
+    floatToDecimal := fun p s is64 bits =>
+      match cast p s is64 bits with
+      | some (fin, c) => SaModel.Decimal.serializeFloat p s fin c
+      | none => fail "aux: missing dec_cast entry",
+    parseDate := fun is64 s => SaModel.Codec.dateOfString (if is64 then .date64 else .date32) s.toList,
+    parseTime := fun u s =>
+      SaModel.Codec.timeOfString (match u with | .second | .millisecond => .time32 | _ => .time64) (codecUnit u) s.toList,
+    parseTimestamp := parseTimestamp,
+    parseDuration := fun u s => SaModel.Codec.durationOfString s.toList (codecUnit u) }
+
+/-- `ExtNP` is a theorem for the codec models (date, time, duration, decimal string and float paths).
+`_partial`: the timestamp string parser (`Codec.timestampOfString`) has no no-panic theorem in C14 yet (its model
+has a panic branch for `timestamp_millis/micros` overflow that is unreachable inside chrono's range), so it stays a
+hypothesis here. -/
+theorem codecExt_np_partial (f32Str f64Str : Nat → String) (cast : Nat → Int → Bool → Nat → Option (Bool × Int))
+    (parseTimestamp : SaModel.TimeUnit → Bool → String → R Int)
+    (hts : ∀ u utc s, (parseTimestamp u utc s).isPanic = false) :
+    ExtNP (codecExt f32Str f64Str cast parseTimestamp) where
+  parseDate := fun _ _ => SaModel.Props.C14.dateOfString_no_panic _ _
+  parseTime := fun _ _ => SaModel.Props.C14.timeOfString_no_panic _ _ _
+  parseTimestamp := hts
+  parseDuration := fun _ _ => SaModel.Props.C14.span_no_panic _ _
+  parseDecimal := fun p sc s h1 h2 =>
+    (isPanic_false_iff _).2 (fun site => SaModel.Props.C15.parse_no_panic p sc _ h1 h2 site)
+  floatToDecimal := fun p sc is64 bits => by
+    simp only [codecExt]
+    split
+    · exact (isPanic_false_iff _).2 (fun site => SaModel.Props.C15.float_no_panic p sc _ _ site)
+    · rfl
+
+/-- `into_array` of every builder -/
+theorem finish_no_panic (ext : Ext) (he : ExtNP ext) (b : B) (hb : NPInv b) (site : String) : finish ext b ≠ panic site :=
+  Lemmas.C16.ne_panic_of_isPanic (Lemmas.C16.finish_np ext he b hb) site
+
+/-- `ArrayBuilder::extend` and the `Serializer` front end, for every value -/
+theorem extend_no_panic (ext : Ext) (he : ExtNP ext) (root : B) (hb : NPInv root) (x : SVal) (site : String) :
+    extend ext root x ≠ panic site :=
+  Lemmas.C16.ne_panic_of_isPanic (Lemmas.C16.extend_np ext he root hb x) site
+
+theorem serializeWith_no_panic (ext : Ext) (he : ExtNP ext) (root : B) (hb : NPInv root) (x : SVal) (site : String) :
+    serializeWith ext root x ≠ panic site :=
+  Lemmas.C16.ne_panic_of_isPanic (Lemmas.C16.serializeWith_np ext he root hb x) site
+
+/-- builder construction followed by ANY list of rows: for every field list (accepted by `newRoot` or not) -/
+theorem runRows_no_panic (ext : Ext) (he : ExtNP ext) (fields : List Field) (rows : List SVal) (site : String) :
+    runRows ext fields rows ≠ panic site :=
+  Lemmas.C16.ne_panic_of_isPanic (Lemmas.C16.runRows_np ext he fields rows) site
+
+/-- `to_marrow(fields, rows)`: construction, every push and `build_arrays` -/
+theorem toMarrow_no_panic (ext : Ext) (he : ExtNP ext) (fields : List Field) (rows : List SVal) (site : String) :
+    toMarrow ext fields rows ≠ panic site :=
+  Lemmas.C16.ne_panic_of_isPanic (Lemmas.C16.toMarrow_np ext he fields rows) site
+
+/-! non-vacuity: a two-column root; malformed rows are accepted or refused, never a panic -/
+
+def exFields : List Field := [.mk "a" .int32 false [], .mk "b" .utf8 true []]
+
+/-- the hypotheses of `push_no_panic` hold for the root `newRoot` builds -/
+example : ∃ root, newRoot exFields = .ok root ∧ NPInv root := by
+  have hok : (newRoot exFields).isOk = true := by decide
+  cases h : newRoot exFields with
+  | ok root => exact ⟨root, rfl, newRoot_inv h⟩
+  | error e => rw [h] at hok; cases hok
+
+/-- a tuple longer than the struct (design #18: the extra element is ignored) and a shorter one (error) -/
+example : (runRows {} exFields [.tuple (.cons (.int .i32 1) (.cons (.str "x") (.cons (.bool true) .nil)))]).isOk = true := by
+  decide +kernel
+example : (runRows {} exFields [.tuple .nil]).isErr = true := by decide +kernel
+
+/-- raw call streams: value without key, two keys in a row, a trailing key; the second one lacks `a` -/
+example : (runRows {} exFields
+    [.mapRaw (.value (.int .i32 9) (.key (.str "b") (.key (.str "a") (.value (.int .i32 1) (.key (.str "zz") .nil)))))]).isOk = true := by
+  decide +kernel
+example : (runRows {} exFields [.mapRaw (.value (.int .i32 9) (.value (.int .i32 9) .nil))]).isErr = true := by
+  decide +kernel
+
+/-- a duplicate field is an error (`seen[idx]` is read in range) -/
+example : (runRows {} exFields
+    [.record "R" (.cons "a" 0 (.int .i32 1) (.cons "a" 0 (.int .i32 2) .nil))]).isErr = true := by decide +kernel
 
 /-- the pinned unchecked offset addition unwinds: witness (design #22) -/
 theorem incrementLast_pinned_panics : (incrementLast false false [2147483647] 1).isPanic = true := by decide
@@ -160,6 +196,113 @@ theorem incrementLast_pinned_panics : (incrementLast false false [2147483647] 1)
 theorem element_out_of_range_panics :
     (SS.element ⟨"$", 1, none, .cons (.null "$.a" 0) ⟨"a", true, []⟩ .nil, [none], 1, [true]⟩ 1 (fun b => .ok b)).isPanic = true := by
   decide
+
+/-! ### tracing -/
+
+section Tracing
+open SaModel.Trace
+open SaModel.Lemmas.C16 (idxOK fromTypeLoopN passes nestVec)
+
+/-- `from_samples`, one sample: `x.serialize(TracerSerializer(&mut t))` never unwinds — for EVERY tracer state `t`
+(no invariant) and every serde value `x` (raw key/value streams, tuples of any length, variants of any name) whose
+variant indices stay below the allocation bound of the executable model (`idxOK`, finding #29) -/
+theorem absorb_no_panic (c : Code) (o : Options) (t : Tracer) (x : SVal) (hx : idxOK x = true) (site : String) :
+    absorb c o t x ≠ panic site :=
+  Lemmas.C16.ne_panic_of_isPanic (Lemmas.C16.absorb_np c o x t hx) site
+
+/-- the bound is where the model stops following the code: `ensure_variant` resizes `variants` up to the index
+(finding #29, known: unbounded allocation in the real crate; an explicit `panic "alloc"` in the model) -/
+theorem absorb_huge_variant_index :
+    (absorb .fixed {} (Tracer.new "$" "$") (.unitVariant "E" VARIANT_ALLOC_LIMIT "a")).isPanic = true := by decide
+
+/-- `Tracer::to_schema` (with `to_field` of every node, overwrites included) never unwinds, for every tracer -/
+theorem to_schema_no_panic (o : Options) (t : Tracer) (site : String) : t.to_schema o ≠ panic site :=
+  Lemmas.C16.ne_panic_of_isPanic (Lemmas.C16.to_schema_np o t) site
+
+/-- `SerdeArrowSchema::from_samples` as a whole -/
+theorem fromSamples_no_panic (c : Code) (o : Options) (xs : List SVal) (hx : ∀ x ∈ xs, idxOK x = true) (site : String) :
+    fromSamples c o xs ≠ panic site :=
+  Lemmas.C16.ne_panic_of_isPanic (Lemmas.C16.fromSamples_np c o xs hx) site
+
+example : idxOK (.mapRaw (.value (.int .i32 1) (.key (.int .i8 2) .nil))) = true := by decide
+example : (absorb .fixed {} (Tracer.new "$" "$") (.mapRaw (.value (.int .i32 1) .nil))).isErr = true := by decide
+example : (fromSamples .fixed {} [.record "R" (.cons "a" 0 (.tuple (.cons (.bool true) .nil)) .nil),
+    .record "R" (.cons "a" 0 (.tuple .nil) .nil)]).isOk = true := by decide +kernel
+
+/-- `from_type`: the loop performs at most `budget` passes (`fromTypeLoopN` is the loop instrumented with its pass
+count; its result is the loop's result) -/
+theorem fromTypeLoop_passes_le_budget (c : Code) (o : Options) (ty : Ty) (budget : Nat) (t : Tracer) :
+    (fromTypeLoopN c o ty budget t).1 = fromTypeLoop c o ty budget t ∧ (fromTypeLoopN c o ty budget t).2 ≤ budget :=
+  ⟨Lemmas.C16.fromTypeLoopN_fst c o ty budget t, Lemmas.C16.fromTypeLoopN_le c o ty budget t⟩
+
+/-- a successful loop ends at a complete tracer reached by `k ≤ budget` consecutive passes -/
+theorem fromTypeLoop_ok (c : Code) (o : Options) (ty : Ty) (budget : Nat) (t t' : Tracer)
+    (h : fromTypeLoop c o ty budget t = .ok t') :
+    t'.is_complete = true ∧ ∃ k, k ≤ budget ∧ passes c o ty k t = .ok t' :=
+  Lemmas.C16.fromTypeLoop_ok c o ty budget t t' h
+
+/-- a type that no run of at most `budget` passes completes is not given a schema -/
+theorem fromTypeLoop_exhausted (c : Code) (o : Options) (ty : Ty) (budget : Nat) (t : Tracer)
+    (h : ∀ k, k ≤ budget → ∀ t', passes c o ty k t = .ok t' → t'.is_complete = false) (t' : Tracer) :
+    fromTypeLoop c o ty budget t ≠ .ok t' :=
+  Lemmas.C16.fromTypeLoop_exhausted c o ty budget t h t'
+
+/-- the depth limit cuts every unfolding of a recursive type: more than `MAX_TYPE_DEPTH` nested containers are
+refused with the documented error in the first pass (here: `Vec<Vec<…>>`; `Option` and newtypes do not add depth) -/
+theorem explore_deep (c : Code) (o : Options) (ty : Ty) (k : Nat) (hk : MAX_TYPE_DEPTH + 1 ≤ k) :
+    explore c o (Tracer.new "$" "$") (nestVec k ty) = fail "Too deeply nested type detected" :=
+  Lemmas.C16.explore_deep_vec c o ty k "$" "$" false (by rw [Lemmas.C16.countDots_root]; exact Nat.zero_le _)
+    (by rw [Lemmas.C16.countDots_root]; omega)
+
+theorem fromType_deep_is_error (c : Code) (o : Options) (ty : Ty) (k : Nat) (hk : MAX_TYPE_DEPTH + 1 ≤ k) :
+    (fromType c o (nestVec k ty)).isErr = true := Lemmas.C16.fromType_deep_vec c o ty k hk
+
+example : (fromTypeLoopN .fixed {} (.struct "S" (.cons "a" (.option .bool) .nil)) 100 (Tracer.new "$" "$")).2 = 1 := by
+  decide +kernel
+example : (fromType .fixed {} (nestVec 21 .bool)).isErr = true := fromType_deep_is_error _ _ _ 21 (by decide)
+example : (fromType .fixed {} (.struct "S" (.cons "a" (nestVec 3 .bool) .nil))).isOk = true := by decide +kernel
+
+/-- `explore` on a tracer state `from_type` cannot reach (a union with an unseen slot) does unwind in the model
+(`opt.as_ref().unwrap()` in the variant scan): a no-panic theorem for `explore` needs the invariant "the tracer was
+grown by `explore` from the same type".  OPEN: `explore_no_panic` / `fromType_no_panic` under that invariant
+(notes/C16.md describes it). -/
+theorem explore_unreachable_state_panics :
+    (explore .fixed {} (.union "$" "$" false (.absent .nil)) (.enum "E" (.unit "A" .nil))).isPanic = true := by decide
+
+end Tracing
+
+/-! ### reader construction and iteration -/
+
+section Reader
+open SaModel.Read
+
+/-- `Deserializer::new(fields, views)`: the count / length checks are errors -/
+theorem deserializer_new_no_panic (checkCount : Bool) (nfields : Nat) (viewLens : List Nat) (site : String) :
+    Access.new checkCount nfields viewLens ≠ panic site := by
+  apply Lemmas.C16.ne_panic_of_isPanic
+  unfold Access.new
+  split
+  · rfl
+  · simp only []; split <;> (split <;> rfl)
+
+/-- construction of the column readers over ARBITRARY views, `Deserializer::get(i)`, `DeserializerIterator::next`
+and the bulk `SeqAccess`: whichever index the access layer hands out (`getIdx`, `Iter.step`, `bulk`), reading that
+record — `deserialize_any` or any typed target — never unwinds.  (C17 proves the reads for every index; the access
+layer itself is total: `Access.getIdx`, `Access.Iter.step`, `Access.bulk`, `Access.run` are plain functions.) -/
+theorem deserializer_access_no_panic (a : Arr) (t : Target) (len : Nat) :
+    NoPanic (new Fixes.all a) ∧
+    (∀ i idx, Access.getIdx len i = some idx → NoPanic (readAny Fixes.all a idx) ∧ NoPanic (readAs Fixes.all t a idx)) ∧
+    (∀ (it : Access.Iter) idx, it.step.1 = some idx → NoPanic (readAny Fixes.all a idx) ∧ NoPanic (readAs Fixes.all t a idx)) ∧
+    (∀ idx ∈ Access.bulk len, NoPanic (readAny Fixes.all a idx) ∧ NoPanic (readAs Fixes.all t a idx)) :=
+  ⟨C17.new_no_panic a,
+   fun _ idx _ => ⟨C17.read_no_panic a idx, C17.readAs_no_panic t a idx⟩,
+   fun _ idx _ => ⟨C17.read_no_panic a idx, C17.readAs_no_panic t a idx⟩,
+   fun idx _ => ⟨C17.read_no_panic a idx, C17.readAs_no_panic t a idx⟩⟩
+
+example : Access.new true 2 [3, 4] = fail "Cannot deserialize from arrays with different lengths" := by decide
+example : Access.bulk 3 = [0, 1, 2] := by decide
+
+end Reader
 
 /-! ### collected from the codec and helper models (proved with their properties) -/
 
